@@ -362,7 +362,8 @@ fn gen_case(rng: &mut Rng, tier: Tier, prop: Prop) -> GradCase {
         (Tier::Thorough, Prop::C02) => 60,
         (Tier::Thorough, _) => 70,
     };
-    let (map, map_mode) = if rng.chance(0.22) {
+    let max_n = if cfg!(miri) { 7 } else { max_n };
+    let (map, map_mode) = if !cfg!(miri) && rng.chance(0.22) {
         let idx = rng.usize(4);
         (real_window(rng, idx, max_n), idx)
     } else {
